@@ -42,14 +42,18 @@ func initCacheDir() error {
 }
 
 func fetchAndCachePackages(pwd string, urls []string) ([]string, error) {
-	curLoc, err := os.Getwd()
+	// Come back to the directory the process is in by identity, not by name: the name may
+	// change in the meantime (a directory above it renamed), and a process that is left in
+	// the directory of a referenced package takes that for the package to generate.
+	origin, err := os.Open(".")
 	if err != nil {
 		return nil, err
 	}
+	defer origin.Close()
 	if err := os.Chdir(pwd); err != nil {
 		return nil, err
 	}
-	defer os.Chdir(curLoc)
+	defer origin.Chdir()
 
 	var dirs []string
 	for _, src := range urls {
